@@ -118,6 +118,27 @@ CLAIMS = {
              "get-value are re-read and compared. Partial: the automata and the rejection of malformed strings are tied "
              "exhaustively, not proved; fraction strings with a decimal part are not compared.",
         design_ref="5 C16"),
+    "C21": dict(
+        technique="Lean 4 proof (mirror of TermNames/ScopedVector: container consistency in all reachable states, balanced-scope restoration) tied by a harness on the real class and end-to-end scoping scripts",
+        text="Theorems for all operation sequences: names pairwise distinct and the name map equals the scoped vector; for "
+             "every balanced sequence between pushScope and popScope the vector and limits are restored exactly (names gone "
+             "and re-insertable); global mode keeps names while the limit stack still follows the assertion stack. Tie: random "
+             "insert/push/pop/mode-switch sequences on the real TermNames vs the mirror (all three containers compared), and "
+             "scripts with :named, define-fun, push/pop, global declarations whose every response must match a scope-stack "
+             "reference and whose unsat cores may only name current assertions. Partial: DefinedFunctions (define-fun) is "
+             "checked end to end only.",
+        design_ref="5 C21"),
+    "C20": dict(
+        technique="Lean 4 proof (byte-wise mirror of the pipe scanner: chunk independence for all byte strings and chunkings) tied by exhaustive short-string runs of the real scanner under controlled read sizes, plus pipe-vs-file differential runs",
+        text="Theorems: for every byte string and every two ways of splitting it across reads the scanner ends in the same "
+             "state (same emitted commands, same error); emitted commands are never altered by later input; the depth counter "
+             "cannot go negative without the unbalanced-parentheses error. Tie: the real interpPipe (frames observed through a "
+             "guarded hook, read(2) sizes controlled by an LD_PRELOAD shim) vs the mirror on all byte strings up to length 3/6 "
+             "over ( ) \" | ; \\ a space newline and random longer ones under up to 7 read-size schedules; valid scripts with "
+             "adversarial layout (comments with parentheses, quoted symbols with ( ; inside, escaped quotes) must give the same "
+             "stdout and exit status through a file and through the pipe. Partial: behaviour after an unbalanced-parentheses "
+             "error and after (exit) is not compared.",
+        design_ref="5 C20"),
 }
 
 PENDING = "not yet built in this round; design in DESIGN.md section 5, construction order in section 10"
